@@ -2,7 +2,7 @@
 from ..canon import Canon, show
 from ..extract import AnalysisBroken
 from ..facts import src
-from ..rules import arrays, cursor, ownership, recursion
+from ..rules import arrays, bitfield, cursor, ownership, recursion
 from ..rules.skeleton import Interp, Ptr, U, Budget, Stop
 from ..util import is_assign
 from . import C11
@@ -50,6 +50,14 @@ BP = "src/core/bitpack.c"
 def _ext(P, call, fn):
     g = cursor.resolve(P, call.callee, fn)
     return cursor.param_extents(P, g) if g is not None and g is not fn else {}
+
+
+def _bit_helper(P, call, fn, ai):
+    g = cursor.resolve(P, call.callee, fn)
+    if g is None or g is fn or not g.static:
+        return None
+    ext = bitfield.helper_extent(P, g)
+    return ext if ext is not None and ext[0] == ai else None
 
 
 def is_decoder(fn):
@@ -165,6 +173,17 @@ def run(ctx):
                            "below that parameter); the count is covered by the bytes available here"
                            % (c.callee, src(args[li]), p.cursor.split("#")[0]), bool(hit) and all(r[4] for r in hit),
                            "" if hit else "the call is not a recognised access of this function")
+                elif _bit_helper(P, c, fn, ai) is not None:
+                    # a bit-addressed helper (extent proven by executing it for every alignment and width): the call site
+                    # must sit in a counted loop under a guard that promises ceil(N * W / 8) bytes
+                    ext = _bit_helper(P, c, fn, ai)
+                    ok, why = bitfield.call_site(P, fn, c, ext, p.cursor, p.limit, cursor.lvalue_text)
+                    what = ("%s touches only bytes (off >> 3) .. ((off + width - 1) >> 3) behind buf + %s (executed for every alignment and width 1..64, %d runs); "
+                            "called with off = index * width for index < N under a guard that promises (N * width + 7) / 8 bytes" % (c.callee, p.cursor.split("#")[0], ext[3]))
+                    if ok is None:
+                        ctx.inconclusive("R4.handoff", key, P.where(c), what, why)
+                    else:
+                        ctx.ob("R4.handoff", key, P.where(c), what, ok, "" if ok else why)
                 else:
                     ctx.bad("R4.handoff", key, P.where(c),
                             "%s receives a pointer into the input without its remaining length and has no declared extent" % c.callee)
